@@ -76,6 +76,7 @@ struct OpRec
     int own_copy_depth = 0;
     int expected_owner = 0;          // which parser object this call was made on (0 constexpr instance, 1 run-time built instance)
     int64_t foreign_functor_calls = 0;   // rule functors of ANOTHER parser object ran during this call
+    int64_t mutable_functor_calls = 0;   // rule functors reached through NON-CONST access to the (const) parser object
     int64_t lexer_state_clobbered = 0;
     // re-entrancy: at functor call #nest_at of this call, the NEXT op of the task is executed from inside the functor
     int64_t nest_at = -1;
@@ -147,6 +148,7 @@ void node_lvalue_arg(uint32_t vid);
 void node_read(uint32_t vid);                                  // the object is read (not consumed): it must be alive
 int64_t copies_so_far();
 void own_copies(int delta);
+void functor_mutable();                                          // a rule functor's non-const call operator was selected
 void functor_owner(int owner);                                  // a rule functor object reports which parser object it belongs to
 void set_expected_owner(int owner);                                    // +1/-1 around a copy the functor itself asks for (not the library's)                                       // copies made during the current call (ledgered objects)                           // a functor received the value as an lvalue (cannot be moved from by a by-value parameter)
 
